@@ -98,7 +98,7 @@ def main():
             na.append({"property_id": i, "reason": PENDING_REASON})
     m={
      "version":1,
-     "setup_cmd":"cd /verif/harness && CARGO_NET_OFFLINE=true CARGO_TARGET_DIR=/verif/.cache/target cargo build --offline --release --bin verif --bin c15_client && cd /repo && CARGO_PROFILE_DEV_DEBUG=0 CARGO_PROFILE_DEV_OPT_LEVEL=1 CARGO_NET_OFFLINE=true CARGO_TARGET_DIR=/verif/.cache/target-repo2 cargo build --offline -p tuftool --bin tuftool && CARGO_NET_OFFLINE=true CARGO_TARGET_DIR=/verif/.cache/target-repo cargo build --offline --release -p olpc-cjson --bin olpc-cjson",
+     "setup_cmd":"cd /verif/harness && CARGO_NET_OFFLINE=true CARGO_TARGET_DIR=/verif/.cache/target cargo build --offline --release --bin verif --bin c15_client && cd /repo && CARGO_PROFILE_DEV_DEBUG=0 CARGO_PROFILE_DEV_OPT_LEVEL=1 CARGO_NET_OFFLINE=true CARGO_TARGET_DIR=/verif/.cache/target-repo2 cargo build --offline -p tuftool --bin tuftool && CARGO_NET_OFFLINE=true CARGO_TARGET_DIR=/verif/.cache/target-repo cargo build --offline --release -p olpc-cjson --bin olpc-cjson && (cd /verif/harness/miri-cjson && CARGO_NET_OFFLINE=true CARGO_TARGET_DIR=/verif/.cache/target-miri cargo +nightly miri run --offline -- 1 0 || true)",
      "hooks":{
         "guard":"cargo feature `verif-hooks` on crate tough (off by default)",
         "enable":"harness/Cargo.toml depends on tough = { path = \"/repo/tough\", features = [\"http\", \"verif-hooks\"] }; ./check rebuilds from /repo's working tree on every invocation",
